@@ -272,6 +272,18 @@ PROPS = {
         floors={"any": {"regular_gradients": 20000, "degenerate_gradients": 10000, "labels:kind_repeat_transform": 60}},
         assumptions=["reference in harness/mon_grad.c written from the statement (PDF type 3 rule for radial gradients)", "a hang is detected as a case exceeding 60 s of CPU time"],
     ),
+    "C14": dict(
+        level="exploration", monitors={"mon_hist": {"sources": ["mon_hist.c", "vf_req.c", "ref_pixel.c", "ref_ops.c", "vf.c"]}},
+        runs=[dict(name="default", monitor="mon_hist", flavour="plain", cases={"quick": 12000, "thorough": 800000}),
+              dict(name="general-only", monitor="mon_hist", flavour="plain", config="general-only", env=GENERAL_ONLY, cases={"quick": 4000, "thorough": 250000}),
+              dict(name="asan", monitor="mon_hist", flavour="asan", cases={"quick": 2500, "thorough": 100000})],
+        rule="one case = a 30-step program on long-lived source, mask and destination images (every format, solid and gradient sources): setters set_transform (new / NULL / identity / identical value), set_filter (incl. same-size kernels differing late), "
+             "set_repeat, set_clip_region(32) (new / NULL / empty), set_has_client_clip, set_source_clipping, set_component_alpha, set_accessors, set_alpha_map (detach, re-attach with new origin), set_indexed, set_dither, set_dither_offset, "
+             "set-then-set-back pairs; about every third step a composite (operator and geometry varied, consecutive composites reuse formats with different flags) is executed on the long-lived images and on fresh replicas built from the monitor's own record of the final properties "
+             "and the current pixels; defined destination bits, padding and alpha map must be identical; evaluations = composites compared; a cell = (request class, history) by hash",
+        floors={"any": {"composites_compared": 60000, "labels:setters": 40, "setter_calls": 200000}},
+        assumptions=["differential oracle: long-lived image vs fresh replica; the record of final properties is kept by the monitor at the API boundary"],
+    ),
 }
 
 # ---------------------------------------------------------------- MANIFEST texts
@@ -350,6 +362,11 @@ MANIFEST_TEXT["C13"] = dict(
     technique="reference-model runtime monitor (geometric parameter + stop interpolation with uncertainty hull) + ASan/UBSan safety sweep over degenerate gradients with a CPU-time bound per case",
     level_text="Exploration: 10^6..10^8 gradient pixels judged against an independent reference within one quantisation step, plus 10^4..10^6 degenerate gradients under sanitizers for the crash/hang/out-of-bounds clause.",
     level_note="trusted: the reference in harness/mon_grad.c; ill-conditioned pixels are skipped and counted")
+
+MANIFEST_TEXT["C14"] = dict(
+    technique="history-vs-fresh-replica differential runtime monitor over random setter/composite programs (record kept at the API boundary), default and general-only chains, plain + ASan",
+    level_text="Exploration: 10^5..10^7 composites on images with 30-step setter histories, each compared bit-for-bit with fresh replicas given the same final properties and pixels; aimed at stale derived state (early-return comparisons, caches, dirty flags).",
+    level_note="trusted: the property record in harness/mon_hist.c and the replica builder in vf_req.c")
 
 NOT_CLAIMED = {p: "monitor not built yet in this round (design in DESIGN.md section 6); no claim is made" for p in
                ["C%02d" % i for i in range(1, 21)]}
